@@ -126,7 +126,9 @@ func (commander *Commander) exec(ctx context.Context, parameters Parameters, scr
 		if err != nil {
 			return nil, nil, errors.Wrap(err, "locking accounts for tx processing")
 		}
-		unlock(ctx)
+		// The accounts stay locked (and the reference stays reserved) until the log is persisted: balances and
+		// references are read from the store, which does not see logs still waiting in the batcher.
+		defer unlock(ctx)
 		verifhook.Yield(ctx, "exec.locked")
 
 		err = m.ResolveBalances(ctx, commander.store)
@@ -157,7 +159,15 @@ func (commander *Commander) exec(ctx context.Context, parameters Parameters, scr
 		}
 		verifhook.Yield(ctx, "exec.txbuilt")
 
-		return executionContext.AppendLog(ctx, log)
+		chainedLog, done, err := executionContext.AppendLog(ctx, log)
+		if err != nil {
+			return nil, nil, err
+		}
+		verifhook.Block(ctx, "exec.wait")
+		<-done
+		verifhook.Yield(ctx, "exec.persisted")
+
+		return chainedLog, done, nil
 	})
 }
 
